@@ -448,10 +448,9 @@ impl Conn {
             let io = self.io.as_mut().unwrap();
             let mut tmp = [0u8; 16384];
             let now = tokio::time::Instant::now();
-            if now >= deadline {
-                return Recv::Timeout;
-            }
-            match tokio::time::timeout(deadline - now, io.read(&mut tmp)).await {
+            // with a zero budget this still polls the stream once, so already delivered bytes are read
+            let left = if deadline > now { deadline - now } else { Duration::from_micros(0) };
+            match tokio::time::timeout(left, io.read(&mut tmp)).await {
                 Err(_) => return Recv::Timeout,
                 Ok(Ok(0)) | Ok(Err(_)) => {
                     self.eof = true;
